@@ -31,6 +31,10 @@ def profile(**kw):
 def gen_layers(rng, p):
     n = rng.randint(p['min_layers'], p['max_layers'])
     layers = []
+    # adversarial naming: dotted names that are prefixes / substrings of each other
+    family = None
+    if rng.random() < p.get('p_prefix_names', 0.25):
+        family = rng.sample(['K', 'KA', 'KAB', 'KB', 'K_', 'Kx1', 'AK', 'KAK'], min(n, 8))
     for i in range(n):
         kind = 'inst' if rng.random() < p['p_inst'] else 'class'
         cands = [L['name'] for L in layers if kind == 'inst' or L['kind'] == 'class']
@@ -46,7 +50,8 @@ def gen_layers(rng, p):
             if a in _closure_of(layers, b) or b in _closure_of(layers, a):
                 bases = [a]
         hooks = [h for h in HOOKS if rng.random() < p['p_hook']]
-        layers.append({'name': 'L%d' % i, 'kind': kind, 'bases': bases, 'hooks': hooks})
+        name = family[i] if family and i < len(family) else 'L%d' % i
+        layers.append({'name': name, 'kind': kind, 'bases': bases, 'hooks': hooks})
     return layers
 
 
@@ -221,7 +226,8 @@ class Model:
 
             def emit(c, t, layer, level):
                 tid = '%s.%s.%s' % (modname, c['name'], t['name'])
-                sid = '%s (%s.%s.%s)' % (t['name'], modname, c['name'], t['name'])
+                sid = '%s%s (%s.%s.%s)' % (t['name'], t.get('idx', ''), modname, c['name'],
+                                           t['name'])
                 out.append({'tid': tid, 'sid': sid, 'layer': layer, 'level': level,
                             't': t, 'c': c, 'module': modname})
 
